@@ -622,7 +622,7 @@ func ProvisionalName(expr *Expr, m *Model) string {
 	case Set:
 		var sb strings.Builder
 		sb.WriteString("setof_")
-		appendSetName(m.Sets[expr.SetIndex], m, &sb)
+		appendSetName(m.Sets[expr.SetIndex], m, &sb, make(map[*TokenSet]bool))
 		return sb.String()
 	case Lookahead:
 		var sb strings.Builder
@@ -640,7 +640,15 @@ func ProvisionalName(expr *Expr, m *Model) string {
 	return ""
 }
 
-func appendSetName(ts *TokenSet, m *Model, out *strings.Builder) {
+func appendSetName(ts *TokenSet, m *Model, out *strings.Builder, seen map[*TokenSet]bool) {
+	if seen[ts] {
+		// Named sets can refer to each other (and to themselves).
+		out.WriteString("rec")
+		return
+	}
+	seen[ts] = true
+	defer delete(seen, ts)
+
 	switch ts.Kind {
 	case Any:
 		out.WriteString(m.Ref(ts.Symbol, nil /*args*/))
@@ -658,7 +666,7 @@ func appendSetName(ts *TokenSet, m *Model, out *strings.Builder) {
 		out.WriteString(m.Ref(ts.Symbol, nil /*args*/))
 	case Complement:
 		out.WriteString("not_")
-		appendSetName(ts.Sub[0], m, out)
+		appendSetName(ts.Sub[0], m, out, seen)
 	case Union, Intersection:
 		for i, sub := range ts.Sub {
 			if i > 0 {
@@ -668,7 +676,7 @@ func appendSetName(ts *TokenSet, m *Model, out *strings.Builder) {
 					out.WriteString("_")
 				}
 			}
-			appendSetName(sub, m, out)
+			appendSetName(sub, m, out, seen)
 		}
 	default:
 		log.Fatalf("cannot compute name for TokenSet Kind=%v", ts.Kind)
